@@ -40,6 +40,9 @@ HARNESS_FILES = {
     "decode.rs": ("src/component/decode.rs", "verif"),
     "verify.rs": ("src/component/verify.rs", "verif"),
     "coding_sel.rs": ("src/coding.rs", "verif_sel"),
+    "source_c14.rs": ("src/source.rs", "verif_c14"),
+    "lpc_c07.rs": ("src/lpc.rs", "verif_c07"),
+    "coding_c07.rs": ("src/coding.rs", "verif_c07"),
     "bitrepr_sub.rs": ("src/component/bitrepr.rs", "verif_sub"),
 }
 
